@@ -481,9 +481,13 @@ def body(chk):
     d, w, p = (2, 2, 2) if quick else (3, 2, 2)
     shapes = ber.tree_shapes(d, w, p)
     if not quick:
-        shapes = [s for s in shapes if ber.count_nodes(s) <= 7]
-    run_lane(chk, TreeRoundTrip, (shapes, 2), bounds={'depth': d, 'width': w, 'payload_bytes': p, 'trailer_bytes': 2, 'shapes': len(shapes), 'classes': 'all 4 per node', 'tag numbers': '0..30 symbolic'},
+        shapes = [s for s in shapes if ber.count_nodes(s) <= 5]
+    run_lane(chk, TreeRoundTrip, (shapes, 2), bounds={'depth': d, 'width': w, 'payload_bytes': p, 'nodes': 'all shapes' if quick else '<= 5 nodes per tree', 'trailer_bytes': 2, 'shapes': len(shapes), 'classes': 'all 4 per node', 'tag numbers': '0..30 symbolic'},
              need_regions=('constructed-root', 'primitive-root'))
+    if not quick:
+        shapes2 = [s for s in ber.tree_shapes(2, 3, 3) if ber.count_nodes(s) == 4]
+        run_lane(chk, TreeRoundTrip, (shapes2, 2), bounds={'depth': 2, 'width': 3, 'payload_bytes': 3, 'nodes': 'the 4-node shapes (root with 3 children)', 'trailer_bytes': 2, 'shapes': len(shapes2), 'classes': 'all 4 per node', 'tag numbers': '0..30 symbolic'},
+                 selftest=False, need_regions=('constructed-root',))
     lens = [127, 128] if quick else [126, 127, 128, 129, 255, 256, 257]
     run_lane(chk, BoundaryLengths, (lens,), bounds={'payload lengths': lens, 'content': 'every byte symbolic'}, selftest=False)
     if not quick:
